@@ -2142,10 +2142,15 @@ class _GroupElem(ABC):
                 else:
                     # This is the most time-consuming method.
                     # We need to construct the Jacobian matrices here.
+                    # size of the element: the stopping tests of least_squares are absolute,
+                    # the cost function is made independent of the length unit
+                    size = np.linalg.norm(np.ptp(coordElemBase[:, :dim], axis=0))
+                    size = 1.0 if size == 0 else size
+
                     def Eval(xi: _types.FloatArray, xP: _types.FloatArray):
                         N = _GroupElem._Eval_Functions(N_tild, xi.reshape(1, -1))
                         # cost function: x(xi) - xP with the isoparametric map x(xi) = N(xi) . x_e
-                        J = N[0, 0] @ coordElemBase[:, :dim] - xP
+                        J = (N[0, 0] @ coordElemBase[:, :dim] - xP) / size
                         return J
 
                     xiP = []
